@@ -1,9 +1,9 @@
 Require Import PG.Base.GoSlice PG.C13.Lib PG.C13.Model PG.C13.Spec PG.C13.Inst.
 Require Extraction. Require ExtrOcamlBasic.
 Extraction "model.ml"
-  quoteIdent quoteLiteral commentSafe isReservedWord isSafeIdent pgTypeToSQL fieldNeedsQuotes csv_field csv_record
+  quoteIdent quoteLiteral commentSafe isReservedWord isSafeIdent pgTypeToSQL fieldNeedsQuotes csv_field csv_record writeCSVRecord
   x_writeJSONValue x_mapToJSON x_formatSQLValue x_TableToSQL x_DatabaseToSQL x_DumpToSQL
   x_formatCSVValue x_TableToCSV x_DatabaseToCSV x_DumpToCSV
-  lex_all csv_read json_read comment_unescape json_num_ok word_token cesc
+  lex_all csv_read csv_read_skip csv_blank json_read comment_unescape json_num_ok word_token cesc
   x_to_json x_map_json x_value_tokens x_table_tokens x_database_tokens x_dump_tokens x_csv_records
   x_csv_section_header canon_gval f64_class f32_class dec res.
